@@ -6,10 +6,13 @@
   verdict, the run with abort_on_first returns the same verdict (every waiver combination, focus_nodes /
   use_shapes selection, nesting depth).  The proof is a refinement: every nested evaluation, constraint
   component and loop of the early-exit run decides what the complete one decides (`AbortProofs.lean`).
-  The subset relation between the two result lists (up to dropped sh:detail children) is checked on the
-  real code by the metamorphic oracle (B), not proved.
+  `abort_results_subset`: every result of the run with abort_on_first is a result of the complete run, possibly
+  with fewer nested details (`Result.Le`: all fields equal, every sh:detail below some sh:detail of the complete
+  run's result, recursively) — the same refinement with the result lists carried along (`AbortSubset.lean`).
+  Both are also checked on the real code by the metamorphic oracle (B).
 -/
 import PyshaclProofs.AbortProofs
+import PyshaclProofs.AbortSubset
 namespace Pyshacl.C12
 open Pyshacl
 
@@ -35,6 +38,23 @@ theorem abort_same_verdict (o : Opts) (h0 : o.abortOnFirst = false) (sg dg : Gra
     ∃ rs', runValidate { o with abortOnFirst := true } sg dg rx focus useShapes = .ok (conf, rs') :=
   runValidate_abort_same_verdict o h0 sg dg rx focus useShapes conf rs h
 
+/-- **every reported result is also a result of the complete run (possibly with fewer nested details)** -/
+theorem abort_results_subset (o : Opts) (h0 : o.abortOnFirst = false) (sg dg : Graph) (rx : Regex)
+    (focus useShapes : List Term) (conf : Bool) (rs : List Result)
+    (h : runValidate o sg dg rx focus useShapes = .ok (conf, rs)) :
+    ∃ rs', runValidate { o with abortOnFirst := true } sg dg rx focus useShapes = .ok (conf, rs') ∧
+      ∀ r' ∈ rs', ∃ r ∈ rs, Result.Le r' r := by
+  obtain ⟨rs', h1, hle⟩ := runValidate_abort_subset o h0 sg dg rx focus useShapes conf rs h
+  exact ⟨rs', h1, (listLe_iff rs' rs).1 hle⟩
+
+/-- what "below" means: every field but the details agrees, and the details are below details -/
+theorem le_fields (r' r : Result) (h : Result.Le r' r) :
+    r'.focus = r.focus ∧ r'.value = r.value ∧ r'.component = r.component ∧ r'.shape = r.shape ∧
+    r'.severity = r.severity ∧ r'.messages = r.messages ∧ ∀ d' ∈ r'.details, ∃ d ∈ r.details, Result.Le d' d := by
+  cases h with
+  | mk f v p c s sev m det1 det0 src hdet =>
+    exact ⟨rfl, rfl, rfl, rfl, rfl, rfl, (listLe_iff det1 det0).1 hdet⟩
+
 /-- the same at the level of one shape evaluation, nested or top-level -/
 theorem abort_same_conformance (c : Ctx) (h0 : c.o.abortOnFirst = false) (fuel : Nat) (s : Shape)
     (focus : Option (List Term)) (path : Option (List PathEntry)) (conf : Bool) (rs : List Result)
@@ -49,5 +69,12 @@ def sg2 : Graph :=
    ⟨exN "S", sh "nodeKind", sh "Literal"⟩]
 example : (runValidate {} sg2 [] (fun _ _ _ => none) [] []).toOption.map (fun p => (p.1, p.2.length)) = some (false, 2) := by decide
 example : (runValidate { abortOnFirst := true } sg2 [] (fun _ _ _ => none) [] []).toOption.map (fun p => (p.1, p.2.length)) = some (false, 1) := by decide
+
+/-! non-vacuity of "fewer nested details": sh:node onto a shape with two failing constraints -/
+def sgN : Graph :=
+  [⟨exN "S", rdfType, shNodeShape⟩, ⟨exN "S", shTargetNode, exN "a"⟩, ⟨exN "S", shNode, exN "T"⟩,
+   ⟨exN "T", rdfType, shNodeShape⟩, ⟨exN "T", sh "class", exN "C"⟩, ⟨exN "T", sh "nodeKind", sh "Literal"⟩]
+example : (runValidate {} sgN [] (fun _ _ _ => none) [] []).toOption.map (fun p => (p.1, p.2.map fun r => r.details.length)) = some (false, [2]) := by decide
+example : (runValidate { abortOnFirst := true } sgN [] (fun _ _ _ => none) [] []).toOption.map (fun p => (p.1, p.2.map fun r => r.details.length)) = some (false, [1]) := by decide
 
 end Pyshacl.C12
